@@ -223,6 +223,15 @@ Definition comp_send (c : option cipher) (ft : N) (data : bytes) : result (bytes
     end
   end.
 
+(* The part of send() that depends on the SIZE of the payload only: the header, or the
+   OverflowError of payload_length.to_bytes(3) - raised before anything is encrypted or written.
+   [tagged] = encryption is on and the payload is not empty. *)
+Definition comp_header_of_size (tagged : bool) (ft n : N) : result bytes :=
+  match to_bytes_be 3 (n + (if tagged then AUTH_TAG_LENGTH else 0)) with
+  | Ok lb => Ok (ft :: lb)
+  | Raise e => Raise e
+  end.
+
 (* one lap of the while loop of data_received.  [known] = the values of the FrameType enum.
    Everything raised inside the try (InvalidTag, a counter that no longer fits, ValueError of
    FrameType(..)) is logged and swallowed: the frame is dropped and the loop continues. *)
@@ -515,6 +524,16 @@ Definition check_mrp_recv (c : tab * option (cipher N) * bytes * list N * list b
   match feeds (mrp_p1 N (tdec t)) st [] (cut lens stream) with
   | Out ms st' buf => outs_beq (somes ms) got && N.eqb (cnt_in st') n && N.eqb (blen buf) r
   | _ => false
+  end.
+
+(* Companion header / refusal as a function of the payload size: (tagged, type, size, header on the
+   wire or None = refused with OverflowError before anything was written) *)
+Definition check_comp_bound (c : bool * N * N * option bytes) : bool :=
+  let '(tagged, ft, n, r) := c in
+  match comp_header_of_size tagged ft n, r with
+  | Ok h, Some h' => bytes_beq h h'
+  | Raise OverflowError, None => true
+  | _, _ => false
   end.
 
 (* write_variant / read_variant alone *)
